@@ -10,6 +10,7 @@ mod c09;
 mod c10;
 mod c11;
 mod c12;
+mod c13;
 mod c14;
 mod c15;
 mod c16;
@@ -88,6 +89,7 @@ fn main() {
         "c10" => c10::main(&args),
         "c11" => c11::main(&args),
         "c12" => c12::main(&args),
+        "c13" => c13::main(&args),
         "c14" => c14::main(&args),
         "c15" => c15::main(&args),
         "c16" => c16::main(&args),
